@@ -91,6 +91,8 @@ def make_call(a5, spec):
     if fn == 'lonlat_to_cell':
         p, r = tuple(args[0]), args[1]
         return lambda: a5.lonlat_to_cell(p, r)
+    if fn == 'cell_to_lonlat_burst':
+        return lambda: [a5.cell_to_lonlat(x) for x in args[0]]
     if fn == 'hex_roundtrip':
         return lambda: a5.hex_to_u64(a5.u64_to_hex(args[0]))
     if fn == 'meta':
@@ -291,17 +293,24 @@ def run_shard(spec, ctx):
                     h_[3] = n_
                     if i % 100 == 99:
                         h_[2].append(n_)
+                        try:
+                            h_.append(repr(next(iter(o_)))[:80])   # the oldest entry: it changes while the length stays put in a FIFO / LRU cache
+                        except StopIteration:
+                            h_.append('')
         bounded = []
-        for path, o, lens, last, before_drop in hist.values():
+        for h_ in hist.values():
+            path, o, lens, last, before_drop = h_[:5]
+            oldest = h_[5:]
             if before_drop:
                 bounded.append((path, o, before_drop))
-            elif len(lens) >= 20 and lens[-1] == lens[-10] and lens[-1] > lens[0]:
-                bounded.append((path, o, lens[-1]))
+            elif len(lens) >= 20 and len(set(oldest)) > 1:   # the oldest entry was replaced although nothing shrank: a rotating (FIFO / LRU) cache
+                bounded.append((path, o, max(lens)))
         ctx.counters['pressure_fill_calls'] = min(spec['fill'], len(fillers))
         ctx.counters['containers_watched_under_pressure'] = len(hist)
         ctx.counters['bounded_caches_found'] = len(bounded)
         for path, o, cap_ in bounded:
             ctx.note('bounded cache under pressure: %s capacity %d' % (path, cap_))
+            ctx.setadd('bounded_caches', path.split('[')[0])
         inj = sched.Injector(a5dir)
         for path, K, C in bounded[:3]:
             for an in ('c2l_deep', 'c2l_low', 'c2b_seg', 'l2c_mid'):
@@ -325,12 +334,13 @@ def run_shard(spec, ctx):
                         else:
                             o.clear()
                             o.update(c0)
-                Bcell = fill_cells[j]
-                bname = 'filler'
+                # B = a burst of lookups that were not part of the filling (at least one of them inserts a new entry)
+                Bcells = fill_cells[j:j + 24] or fill_cells[:24]
+                bname = 'filler_burst'
                 cat2 = dict(cat)
-                cat2[bname] = ('cell_to_lonlat', [Bcell])
+                cat2[bname] = ('cell_to_lonlat_burst', [Bcells])
                 base2 = dict(base)
-                base2[bname] = sched.canon(a5.cell_to_lonlat(Bcell))
+                base2[bname] = sched.canon([a5.cell_to_lonlat(x) for x in Bcells])
                 restore()
                 n = inj.events_in(A, 'line')
                 cap = spec['cap'] and max(spec['cap'], 2500 if n <= 2500 else 1500)
